@@ -207,7 +207,10 @@ def _ids_write(e: Engine, n: Node) -> bool:
     if n.kind == 'stmt' and isinstance(n.ast, (ast.Assign, ast.AugAssign)):
         tg = n.ast.targets if isinstance(n.ast, ast.Assign) \
             else [n.ast.target]
-        return any(path_of(t, n.frame) == 'self.queued_ids' for t in tg)
+        # (also as one element of a tuple assignment)
+        flat = [el for t in tg for el in (
+            t.elts if isinstance(t, (ast.Tuple, ast.List)) else [t])]
+        return any(path_of(t, n.frame) == 'self.queued_ids' for t in flat)
     if n.kind == 'call' and isinstance(n.ast.func, ast.Attribute):
         return path_of(n.ast.func.value, n.frame) == 'self.queued_ids' and \
             e.call_name(n) in ('add', 'discard', 'remove', 'clear', 'update',
@@ -237,6 +240,7 @@ def q2(e: Engine, rep: Report):
             st = after.get(w.id)
             ok = isinstance(st, dataflow.Top) or (st is not None and
                                                   'ids' in st)
+            ok = ok or _ids_write(e, w)        # both in one statement
             ok = ok or 'ids' in (before.get(w.id) or ()) and \
                 mname == '__init__'
             pth = None
@@ -880,6 +884,42 @@ def _wait_ready_part(e: Engine, rep: Report, due_kind):
             sa = n.frame.star_args
             eff = [x for x, _f in sa]
             aframe = sa[0][1] if sa else n.frame
+        if len(eff) == 1 and isinstance(eff[0], ast.Starred) and \
+                isinstance(eff[0].value, ast.Name):
+            # wait(*args) with `args = self._helper(now)` handing back the
+            # argument tuple: () = no timeout, (t,) = timeout t; one case
+            # per return of the helper (a None return cannot be starred: the
+            # caller has turned back before)
+            nm = eff[0].value.id
+            ds = [d for d in walk_own(n.frame.ctx.func.node)
+                  if isinstance(d, ast.Assign) and any(
+                      isinstance(t, ast.Name) and t.id == nm
+                      for t in d.targets)]
+            vals = common.values_of(g, ds[0].value, n.frame) \
+                if len(ds) == 1 and isinstance(ds[0].value, ast.Call) else []
+            if vals and all(
+                    isinstance(v, ast.Tuple) and len(v.elts) <= 1 or (
+                        isinstance(v, ast.Constant) and v.value is None)
+                    for v, _f in vals):
+                for v, vf in vals:
+                    if isinstance(v, ast.Constant):
+                        continue
+                    # judged where the helper decided: its return
+                    rs = [r for r in g.of_kind('stmt')
+                          if isinstance(r.ast, ast.Return) and
+                          r.ast.value is v]
+                    site0 = rs[0] if rs else n
+                    if not v.elts:
+                        cases.append((n, None, site0))
+                    else:
+                        x = v.elts[0]
+                        if isinstance(x, ast.BinOp) and \
+                                isinstance(x.right, ast.Name):
+                            r2, _rf = common.deref(x.right, vf)
+                            if r2 is not x.right:
+                                x = ast.BinOp(left=x.left, op=x.op, right=r2)
+                        cases.append((n, x, site0))
+                continue
         if not (eff or n.ast.keywords):
             cases.append((n, None, n))
             continue
